@@ -288,24 +288,52 @@ def rule_histories(ctx, tci):
 
     # (g2) a note that one of the selected tracks refuses (out of its instrument's range): the request is refused as a
     #      whole, or it reaches every track that takes it -- never "the tracks before the refusing one, and no further"
+    forms = (("'C-2'", lambda it: "C-2"), ("['C-2', 'F']", lambda it: ["C-2", "F"]), ("Note('C', 2)", lambda it: new(it, noteci, "C", 2)),
+             ("NoteContainer(['F', 'C-2'])", lambda it: new(it, nci, ["F", "C-2"])))
     for order in ([0, 1, 2], [1, 0, 2], [0, 2, 1]):
-        def go_ref(it, order=order):
+        for flabel, mk in (forms if order == [0, 1, 2] else forms[:1]):
+            def go_ref(it, order=order, mk=mk):
+                c = new(it, compci)
+                ts = [new(it, tci), new(it, tci, new(it, imod.cls("Guitar"))), new(it, tci)]
+                for t in ts:
+                    it.call_method(c, "add_track", [t], {}, None)
+                c.attrs["selected_tracks"] = list(order)
+                r = outcome(it, lambda: it.call_method(c, "add_note", [mk(it)], {}, None))
+                return r, [len(_flatten(t)[0]) for t in ts]
+            v, err = run1("refusing track %s %s" % (order, flabel), go_ref)
+            ok, why = err is None, err
+            if ok:
+                r, counts = v
+                if r[0] != "raise" or r[1] != "InstrumentRangeError":
+                    ok, why = False, "%s for a guitar track gives %s, expected the range error" % (flabel, r,)
+                elif counts not in ([0, 0, 0], [1, 0, 1]):
+                    ok, why = False, "the note is refused with the range error, but the tracks now hold %s entries: the tracks selected before the guitar got it, the ones after did not" % counts
+            inst = "selection.refused%s" % order if flabel == "'C-2'" else "selection.refused%s[%s]" % (order, flabel)
+            ctx.check(ok, R, inst, repo.find_method(compci, "add_note").where(), "Composition.add_note(%s) to tracks [plain, guitar, plain] selected as %s" % (flabel, order), why)
+
+    # (g3) every form a track takes is taken by the composition for each selected track that has an instrument
+    for flabel, mk, pitches in (("'C'", lambda it: "C", (48,)), ("['C', 'E']", lambda it: ["C", "E"], (48, 52)), ("[['C', 5]]", lambda it: [["C", 5]], (60,)),
+                                ("Note('D', 4)", lambda it: new(it, noteci, "D", 4), (50,)), ("NoteContainer(['C', 'G'])", lambda it: new(it, nci, ["C", "G"]), (48, 55))):
+        def go_forms(it, mk=mk):
             c = new(it, compci)
-            ts = [new(it, tci), new(it, tci, new(it, imod.cls("Guitar"))), new(it, tci)]
+            ts = [new(it, tci, new(it, imod.cls("Piano"))), new(it, tci), new(it, tci, new(it, imod.cls("Piano")))]
             for t in ts:
                 it.call_method(c, "add_track", [t], {}, None)
-            c.attrs["selected_tracks"] = list(order)
-            r = outcome(it, lambda: it.call_method(c, "add_note", ["C-2"], {}, None))
-            return r, [len(_flatten(t)[0]) for t in ts]
-        v, err = run1("refusing track %s" % order, go_ref)
+            c.attrs["selected_tracks"] = [0, 1]
+            r = outcome(it, lambda: it.call_method(c, "add_note", [mk(it)], {}, None))
+            return r, [_flatten(t)[0] for t in ts]
+        v, err = run1("selected tracks take %s" % flabel, go_forms)
         ok, why = err is None, err
         if ok:
-            r, counts = v
-            if r[0] != "raise" or r[1] != "InstrumentRangeError":
-                ok, why = False, "C-2 for a guitar track gives %s, expected the range error" % (r,)
-            elif counts not in ([0, 0, 0], [1, 0, 1]):
-                ok, why = False, "the note is refused with the range error, but the tracks now hold %s entries: the tracks selected before the guitar got it, the ones after did not" % counts
-        ctx.check(ok, R, "selection.refused%s" % order, repo.find_method(compci, "add_note").where(), "Composition.add_note('C-2') to tracks [plain, guitar, plain] selected as %s" % order, why)
+            r, flats = v
+            got = [[(str(e[0]), e[1]) for e in f] for f in flats]
+            want = [[("1/4", pitches)], [("1/4", pitches)], []]
+            if r[0] != "return":
+                ok, why = False, "adding %s to a piano track and a plain track gives %s" % (flabel, r)
+            elif got != want:
+                ok, why = False, "tracks hold %s, expected %s" % (got, want)
+        ctx.check(ok, R, "selection.forms[%s]" % flabel, repo.find_method(compci, "add_note").where(),
+                  "Composition.add_note(%s) to tracks [piano, plain] of [piano, plain, piano]" % flabel, why)
 
     # (d) equality follows the contents (and never raises): tracks with a rest, compositions
     def go_eq(it):
